@@ -150,3 +150,128 @@ mod with_loom {
 		}
 	}
 }
+
+// Verification hook (H5): in verification builds the loom variant's `RwLock` gives an upgradable
+// read the semantics it has in parking_lot (it coexists with readers and excludes writers and other
+// upgradable readers), instead of mapping it to a write lock. Explicit imports take precedence over
+// the glob import above; nothing changes without `--cfg parity_db_verif`.
+#[cfg(all(feature = "loom", parity_db_verif))]
+pub use self::verif_rwlock::{RwLock, RwLockReadGuard, RwLockUpgradableReadGuard, RwLockWriteGuard};
+
+#[cfg(all(feature = "loom", parity_db_verif))]
+mod verif_rwlock {
+	use std::{
+		fmt,
+		ops::{Deref, DerefMut},
+	};
+
+	/// Verification shim: an upgradable read coexists with readers (as in parking_lot) and
+	/// excludes writers and other upgradable readers through `gate`.
+	#[derive(Debug, Default)]
+	pub struct RwLock<T> {
+		rw: loom::sync::RwLock<T>,
+		gate: loom::sync::Mutex<()>,
+	}
+
+	impl<T> RwLock<T> {
+		pub fn new(val: T) -> Self {
+			Self { rw: loom::sync::RwLock::new(val), gate: loom::sync::Mutex::new(()) }
+		}
+
+		pub fn read(&self) -> RwLockReadGuard<T> {
+			RwLockReadGuard(self.rw.read().unwrap())
+		}
+
+		pub fn upgradable_read(&self) -> RwLockUpgradableReadGuard<T> {
+			let gate = self.gate.lock().unwrap();
+			let read = self.rw.read().unwrap();
+			RwLockUpgradableReadGuard { lock: self, read, gate }
+		}
+
+		pub fn write(&self) -> RwLockWriteGuard<T> {
+			let gate = self.gate.lock().unwrap();
+			let write = self.rw.write().unwrap();
+			RwLockWriteGuard { lock: self, write, gate }
+		}
+
+		pub fn is_locked(&self) -> bool {
+			!self.rw.try_write().is_ok()
+		}
+	}
+
+	#[derive(Debug)]
+	pub struct RwLockReadGuard<'a, T>(loom::sync::RwLockReadGuard<'a, T>);
+
+	impl<'a, T> Deref for RwLockReadGuard<'a, T> {
+		type Target = T;
+
+		fn deref(&self) -> &T {
+			self.0.deref()
+		}
+	}
+
+	pub struct RwLockUpgradableReadGuard<'a, T> {
+		lock: &'a RwLock<T>,
+		read: loom::sync::RwLockReadGuard<'a, T>,
+		gate: loom::sync::MutexGuard<'a, ()>,
+	}
+
+	impl<'a, T> RwLockUpgradableReadGuard<'a, T> {
+		pub fn upgrade(s: Self) -> RwLockWriteGuard<'a, T> {
+			let RwLockUpgradableReadGuard { lock, read, gate } = s;
+			// writers and upgradable readers are kept out by the gate; readers do not modify
+			drop(read);
+			let write = lock.rw.write().unwrap();
+			RwLockWriteGuard { lock, write, gate }
+		}
+	}
+
+	impl<'a, T> Deref for RwLockUpgradableReadGuard<'a, T> {
+		type Target = T;
+
+		fn deref(&self) -> &T {
+			self.read.deref()
+		}
+	}
+
+	impl<'a, T> fmt::Debug for RwLockWriteGuard<'a, T> {
+		fn fmt(&self, f: &mut fmt::Formatter<'_>) -> fmt::Result {
+			f.write_str("RwLockWriteGuard")
+		}
+	}
+
+	impl<'a, T> fmt::Debug for RwLockUpgradableReadGuard<'a, T> {
+		fn fmt(&self, f: &mut fmt::Formatter<'_>) -> fmt::Result {
+			f.write_str("RwLockUpgradableReadGuard")
+		}
+	}
+
+	pub struct RwLockWriteGuard<'a, T> {
+		lock: &'a RwLock<T>,
+		write: loom::sync::RwLockWriteGuard<'a, T>,
+		gate: loom::sync::MutexGuard<'a, ()>,
+	}
+
+	impl<'a, T> RwLockWriteGuard<'a, T> {
+		pub fn downgrade_to_upgradable(s: Self) -> RwLockUpgradableReadGuard<'a, T> {
+			let RwLockWriteGuard { lock, write, gate } = s;
+			drop(write);
+			let read = lock.rw.read().unwrap();
+			RwLockUpgradableReadGuard { lock, read, gate }
+		}
+	}
+
+	impl<'a, T> Deref for RwLockWriteGuard<'a, T> {
+		type Target = T;
+
+		fn deref(&self) -> &T {
+			self.write.deref()
+		}
+	}
+
+	impl<'a, T> DerefMut for RwLockWriteGuard<'a, T> {
+		fn deref_mut(&mut self) -> &mut T {
+			self.write.deref_mut()
+		}
+	}
+}
